@@ -1,33 +1,140 @@
 /-
-  C11 — FINDING: the `x ≈ 0` shortcut of `checked_gamma_lr` (gamma.rs:299–301, `almost_eq(x, 0, 1.11e-15)` ⇒
-  `Ok(0.0)`) is wrong for small `a`: `P(a,x) ≈ x^a/Γ(a+1)` tends to 0 with `x` only like `x^a`, which for small
-  `a` is far from 0 at `x = 1e-15`.
+  C11 — `checked_gamma_lr` for VERY SMALL `x` (`0 < x ≤ DEFAULT_F64_ACC = 1.11e-15`), src/function/gamma.rs:296–321.
 
-  * `gamma_lr_small_x_value`            for `a > 1.11e-15` and `0 < x ≤ 1.11e-15` the model returns exactly `0`;
+  History: up to commit 9f2f5b7 the source had the shortcut `almost_eq(x, 0.0, 1.11e-15) ⇒ Ok(0.0)`, which was wrong
+  for small `a` (`P(a,x) ≈ x^a/Γ(a+1)` tends to 0 with `x` only like `x^a`; at `a = 0.001`, `x = 2^−50` the true value
+  is `0.966…`, the old code returned `0`, and `gamma_ur` returned `1`).  The shortcut was REMOVED: these arguments
+  now go on to `ax = a·ln x − x − LG a`, the underflow test and the series branch (`x ≤ 1`), like every other `x`.
+  This file pins the repaired behaviour:
+
+  * `gamma_lr_small_x_stop_le`, `gamma_lr_small_x_stop_eq_one`   the series loop stops after at most TWO terms
+                                        (after ONE for `x ≤ 1e-15`);
+  * `gamma_lr_small_x_value`            `ok (exp(ax)·S_N/a)`, `N = stopIdx a x 1e-15 ≤ 2`, no fuel hypothesis;
+  * `gamma_lr_small_x_value_one_term`   for `x ≤ 1e-15`: `ok (exp(ax)·(1 + x/(a+1))/a)`;
+  * `gamma_lr_small_x_underflow`        when `ax < −709.78…` (large `a`): `ok 0` — the only way `0` is still returned;
+  * `gamma_lr_small_x_accuracy`         the accuracy statement of the series branch holds here, with truncation factor
+                                        `1 − 1e-15·x ≤ S_N/S_∞ ≤ 1`;
+  * `gamma_ur_small_x_value`            `checked_gamma_ur = ok (1 − series value)`;
   * `gammaLrR_ge_first_term`            the true `P(a,x) ≥ x^a e^{−x}/Γ(a+1)`;
-  * `gamma_lr_small_x_counterexample`   at `a = 0.001`, `x = 2^−50 ≈ 8.9e-16`: model `0`, true value `> 0.95`.
-  Replayed on the crate (`/repo`, f64): `gamma_lr(1e-3, 2^-50) = 0`, `gamma_lr(1e-3, 2e-15) = 0.96727…`,
-  `gamma_ur(1e-3, 2^-50) = 1` (true `≈ 0.034`).
+  * `ln_gamma_milli_le`                 a crude bound on the model's Lanczos `ln_gamma` at `0.001` (reflection piece);
+  * `gamma_lr_small_x_witness`          the OLD counterexample point `a = 0.001`, `x = 2^−50 ≈ 8.9e-16`, now
+                                        UNCONDITIONALLY inside the accuracy theorem: the model returns
+                                        `P·exp(log Γ(a) − LG a)·q`, `1 − 1e-15·2^−50 ≤ q ≤ 1`, and `P > 0.95`; in particular
+                                        the returned value is positive (not `0`).
 -/
-import Statrs.Props.C11.GammaSeriesAccuracy
+import Statrs.Props.C11.GammaSeriesUr
 namespace Statrs.Props.C11
 open Statrs Statrs.Gen Statrs.Lemmas.GammaSeries Statrs.Props.C03.Witness
+open Statrs.Spec.FunctionBranches Statrs.Props.C11.BranchPins
 
-/-- full(ℝ): the `x ≈ 0` shortcut.  For `a` above the `a ≈ 0` shortcut and `0 < x ≤ 1.1102230246251565e-15`
-    the generated `checked_gamma_lr` returns exactly `0`. -/
+/-! ### the loop stops at once -/
+
+private theorem term_one (a x : ℝ) : term a x 1 = x / (a + 1) := by
+  rw [term_succ, term_zero, one_mul]; norm_num
+
+private theorem term_two (a x : ℝ) : term a x 2 = x / (a + 1) * (x / (a + 2)) := by
+  rw [term_succ, term_one]; norm_num
+
+private theorem psum_one (a x : ℝ) : psum a x 1 = 1 + x / (a + 1) := by
+  rw [psum_succ, psum_zero, term_one]
+
+/-- full(ℝ): for `a ≥ 0` and `0 < x ≤ 1.1102230246251565e-15` the stopping test `c_n/S_n ≤ 1e-15` of the series loop
+    holds at `n = 2` at the latest (`c_2 ≤ x² ≈ 1.2e-30`): the loop runs one or two iterations. -/
+theorem gamma_lr_small_x_stop_le {a x : ℝ} (ha : 0 ≤ a) (hx0 : 0 < x)
+    (hx : x ≤ (0.0000000000000011102230246251565 : ℝ)) :
+    1 ≤ stopIdx a x 1e-15 ∧ stopIdx a x 1e-15 ≤ 2 := by
+  refine ⟨(stopIdx_spec ha hx0 (by norm_num)).1, stopIdx_le (by norm_num) ?_⟩
+  rw [div_le_iff₀ (psum_pos ha hx0.le 2), term_two]
+  have hp := one_le_psum ha hx0.le 2
+  have h1 : x / (a + 1) ≤ x := div_le_self hx0.le (by linarith)
+  have h2 : x / (a + 2) ≤ x := div_le_self hx0.le (by linarith)
+  have h10 : 0 ≤ x / (a + 1) := by positivity
+  have h20 : 0 ≤ x / (a + 2) := by positivity
+  have h3 : x / (a + 1) * (x / (a + 2)) ≤ x * x := mul_le_mul h1 h2 h20 hx0.le
+  have h4 : x * x ≤ 1e-15 := by nlinarith
+  nlinarith
+
+/-- full(ℝ): for `x ≤ 1e-15` (the tolerance) the loop stops after exactly ONE iteration (`c_1 = x/(a+1) ≤ x`). -/
+theorem gamma_lr_small_x_stop_eq_one {a x : ℝ} (ha : 0 ≤ a) (hx0 : 0 < x) (hx : x ≤ (1e-15 : ℝ)) :
+    stopIdx a x 1e-15 = 1 := by
+  refine stopIdx_eq le_rfl ?_ (fun j h1 h2 => by omega)
+  rw [div_le_iff₀ (psum_pos ha hx0.le 1), term_one]
+  have hp := one_le_psum ha hx0.le 1
+  have h1 : x / (a + 1) ≤ x := div_le_self hx0.le (by linarith)
+  nlinarith
+
+/-! ### the value -/
+
+/-- full(ℝ): the repaired small-`x` behaviour.  For `a` above the `a ≈ 0` shortcut and `0 < x ≤ 1.1102230246251565e-15`
+    (the arguments the removed `x ≈ 0` shortcut used to send to `Ok(0.0)`), outside the underflow shortcut, the
+    generated `checked_gamma_lr` returns the SERIES value `exp(a·ln x − x − LG a)·S_N/a` with `N = stopIdx a x 1e-15 ≤ 2`
+    (no fuel hypothesis). -/
 theorem gamma_lr_small_x_value (a x : ℝ) (ha : (0.0000000000000011102230246251565 : ℝ) < a)
-    (hx0 : 0 < x) (hx : x ≤ (0.0000000000000011102230246251565 : ℝ)) :
-    F.gamma.checked_gamma_lr a x = .ok 0 := by
+    (hx0 : 0 < x) (hx : x ≤ (0.0000000000000011102230246251565 : ℝ))
+    (hu : -(709.78271289338399 : ℝ) ≤ a * Real.log x - x - F.gamma.ln_gamma a) :
+    F.gamma.checked_gamma_lr a x =
+      .ok (Real.exp (a * Real.log x - x - F.gamma.ln_gamma a) * psum a x (stopIdx a x 1e-15) / a) ∧
+    stopIdx a x 1e-15 ≤ 2 := by
   have ha0 : (0 : ℝ) < a := lt_trans (by norm_num) ha
-  obtain ⟨g1, g2, -, g4, -⟩ := gamma_lr_guards_real ha ha
-  have hinf : (RFun.inf : ℝ) = 0 := rfl
-  have h0 : (0.0 : ℝ) = 0 := by norm_num
-  have g3 : ¬ ((x ≤ (0.0 : ℝ)) ∨ ((x == (RFun.inf : ℝ)) = true)) := by
-    rw [hinf, h0]; simp [not_le.mpr hx0, hx0.ne']
-  have g5 : (R.prec.almost_eq x (0.0 : ℝ) (R.prec.DEFAULT_F64_ACC (α := ℝ))) = true := by
-    rw [Statrs.Props.C20.almost_eq_real, h0, sub_zero, abs_of_pos hx0]
-    simp only [R.prec.DEFAULT_F64_ACC]; exact decide_eq_true hx
-  rw [BranchPins.checked_gamma_lr_x_zero a x g1 g2 g3 g4 g5, h0]
+  have hN := (gamma_lr_small_x_stop_le ha0.le hx0 hx).2
+  have hf : loopFuel = 20000 := rfl
+  exact ⟨gamma_lr_series_value a x ha hx0 hu (Or.inl (hx.trans (by norm_num))) (by omega), hN⟩
+
+/-- full(ℝ): for `0 < x ≤ 1e-15` the value in closed form: `exp(a·ln x − x − LG a)·(1 + x/(a+1))/a`. -/
+theorem gamma_lr_small_x_value_one_term (a x : ℝ) (ha : (0.0000000000000011102230246251565 : ℝ) < a)
+    (hx0 : 0 < x) (hx : x ≤ (1e-15 : ℝ))
+    (hu : -(709.78271289338399 : ℝ) ≤ a * Real.log x - x - F.gamma.ln_gamma a) :
+    F.gamma.checked_gamma_lr a x =
+      .ok (Real.exp (a * Real.log x - x - F.gamma.ln_gamma a) * (1 + x / (a + 1)) / a) := by
+  have ha0 : (0 : ℝ) < a := lt_trans (by norm_num) ha
+  have h := (gamma_lr_small_x_value a x ha hx0 (hx.trans (by norm_num)) hu).1
+  rw [gamma_lr_small_x_stop_eq_one ha0.le hx0 hx, psum_one] at h
+  exact h
+
+/-- full(ℝ): the only way `0` is still returned for a small positive `x`: the underflow shortcut
+    `a·ln x − x − LG a < −709.78…` (large `a`; there `¬ a < x`, so the constant is `0`, and the true `P(a,x)` is
+    below the smallest positive normal double). -/
+theorem gamma_lr_small_x_underflow (a x : ℝ) (ha : (0.0000000000000011102230246251565 : ℝ) < a)
+    (hx0 : 0 < x) (hx : x ≤ (0.0000000000000011102230246251565 : ℝ))
+    (hu : a * Real.log x - x - F.gamma.ln_gamma a < -(709.78271289338399 : ℝ)) :
+    F.gamma.checked_gamma_lr a x = .ok 0 := by
+  obtain ⟨g1, g2, g3, g4⟩ := gamma_lr_guards_real ha hx0
+  rw [BranchPins.checked_gamma_lr_underflow a x g1 g2 g3 g4 (by simpa using hu),
+    if_neg (not_lt.mpr (hx.trans ha.le))]
+  norm_num
+
+/-- full(ℝ): `checked_gamma_ur` at the same arguments is `1 −` the series value (it was `1 − 0` before the fix). -/
+theorem gamma_ur_small_x_value (a x : ℝ) (ha : (0.0000000000000011102230246251565 : ℝ) < a)
+    (hx0 : 0 < x) (hx : x ≤ (0.0000000000000011102230246251565 : ℝ))
+    (hu : -(709.78271289338399 : ℝ) ≤ a * Real.log x - x - F.gamma.ln_gamma a) :
+    F.gamma.checked_gamma_ur a x =
+      .ok (1 - Real.exp (a * Real.log x - x - F.gamma.ln_gamma a) * psum a x (stopIdx a x 1e-15) / a) := by
+  have ha0 : (0 : ℝ) < a := lt_trans (by norm_num) ha
+  have hN := (gamma_lr_small_x_stop_le ha0.le hx0 hx).2
+  have hf : loopFuel = 20000 := rfl
+  exact gamma_ur_series_value a x ha hx0 hu (Or.inl (lt_of_le_of_lt hx (by norm_num))) (by omega)
+
+/-! ### accuracy -/
+
+/-- full(ℝ): ACCURACY for `0 < x ≤ 1.11e-15`, the same statement as for the rest of the series branch
+    (`gamma_lr_series_accuracy`), with the fuel hypothesis discharged and the truncation factor made explicit:
+      `checked_gamma_lr a x = ok (P(a,x)·exp(log Γ(a) − LG a)·q)`,  `1 − 1e-15·x ≤ q ≤ 1`
+    (`P` the true regularised lower incomplete gamma function): the only error left is that of the Lanczos `ln_gamma`. -/
+theorem gamma_lr_small_x_accuracy (a x : ℝ) (ha : (0.0000000000000011102230246251565 : ℝ) < a)
+    (hx0 : 0 < x) (hx : x ≤ (0.0000000000000011102230246251565 : ℝ))
+    (hu : -(709.78271289338399 : ℝ) ≤ a * Real.log x - x - F.gamma.ln_gamma a) :
+    ∃ q : ℝ, F.gamma.checked_gamma_lr a x =
+        .ok (gammaLrR a x * Real.exp (Real.log (Real.Gamma a) - F.gamma.ln_gamma a) * q) ∧
+      1 - 1e-15 * x ≤ q ∧ q ≤ 1 := by
+  have ha0 : (0 : ℝ) < a := lt_trans (by norm_num) ha
+  obtain ⟨hN1, hN⟩ := gamma_lr_small_x_stop_le ha0.le hx0 hx
+  have hf : loopFuel = 20000 := rfl
+  obtain ⟨hv, hlo, hhi⟩ := gamma_lr_series_accuracy a x ha hx0 hu (Or.inl (hx.trans (by norm_num))) (by omega)
+  refine ⟨_, hv, le_trans ?_ hlo, hhi⟩
+  have hN' : (1 : ℝ) ≤ (stopIdx a x 1e-15 : ℝ) := by exact_mod_cast hN1
+  have hd : (1 : ℝ) ≤ a + ((stopIdx a x 1e-15 + 1 : ℕ) : ℝ) - x := by push_cast; linarith
+  have hq : x / (a + ((stopIdx a x 1e-15 + 1 : ℕ) : ℝ) - x) ≤ x := div_le_self hx0.le hd
+  nlinarith
 
 /-- full(ℝ): the true `P(a,x)` is at least the first term of its series, `x^a e^{−x}/Γ(a+1)`. -/
 theorem gammaLrR_ge_first_term {a x : ℝ} (ha : 0 < a) (hx : 0 < x) :
@@ -53,34 +160,121 @@ theorem gamma_le_one_of_mem_Icc {s : ℝ} (h1 : 1 ≤ s) (h2 : s ≤ 2) : Real.G
   rw [e] at h
   linarith
 
-/-- counterexample (DEFECT of statrs, replayed on the crate): at `a = 0.001`, `x = 2^−50 ≈ 8.88e-16` the
-    generated `checked_gamma_lr` returns `0` (the `almost_eq(x, 0.0, 1.11e-15)` shortcut), while the true
-    regularised lower incomplete gamma function is above `0.95` there (`P(a,x) ≈ x^a/Γ(a+1) = 0.966…`).
-    Just outside the shortcut (`x = 2e-15`) the series branch returns `0.9673`: the function jumps. -/
-theorem gamma_lr_small_x_counterexample :
-    F.gamma.checked_gamma_lr (0.001 : ℝ) (1 / 2 ^ 50) = .ok 0 ∧ 0.95 ≤ gammaLrR 0.001 (1 / 2 ^ 50) := by
-  refine ⟨gamma_lr_small_x_value _ _ (by norm_num) (by positivity) (by norm_num), ?_⟩
+/-! ### the former counterexample point `a = 0.001`, `x = 2^−50` -/
+
+/-- full(ℝ): a crude bound on the model's Lanczos `ln_gamma` at `0.001` (reflection piece `x < 0.5`; true value
+    `ln Γ(0.001) ≈ 6.907`), from the exact Lanczos sum `S = 0.2630…` and `sin(π/1000) > 0.002`. -/
+theorem ln_gamma_milli_le : F.gamma.ln_gamma (0.001 : ℝ) ≤ 700 := by
+  rw [ln_gamma_reflection _ (by norm_num), lanczosSum_eq]
+  have t2 : Int.toNat 2 = 2 := rfl
+  have t3 : Int.toNat 3 = 3 := rfl
+  have t4 : Int.toNat 4 = 4 := rfl
+  have t5 : Int.toNat 5 = 5 := rfl
+  have t6 : Int.toNat 6 = 6 := rfl
+  have t7 : Int.toNat 7 = 7 := rfl
+  have t8 : Int.toNat 8 = 8 := rfl
+  have t9 : Int.toNat 9 = 9 := rfl
+  have t10 : Int.toNat 10 = 10 := rfl
+  simp only [List.foldl, F.gamma.GAMMA_DK, listGet, F.gamma.GAMMA_R]
+  norm_num [t2, t3, t4, t5, t6, t7, t8, t9, t10]
+  have hpi3 := Real.pi_gt_three
+  have hpi4 := Real.pi_lt_d2
+  have he1 : (1 : ℝ) ≤ Real.exp 1 := by
+    have := Real.add_one_le_exp (1 : ℝ); linarith
+  have he3 := Real.exp_one_lt_d9
+  have he2 := Real.exp_one_gt_d9
+  -- ln π ≤ π − 1
+  have h1 : Real.log Real.pi ≤ 3 := by
+    have := Real.log_le_sub_one_of_pos Real.pi_pos; linarith
+  -- the power term has a non-negative logarithm
+  have h2 : 0 ≤ Real.log (11399511 / 1000000 / Real.exp 1) := by
+    apply Real.log_nonneg
+    rw [le_div_iff₀ (Real.exp_pos 1)]; linarith
+  -- 2√(e/π) ≥ 1
+  have h3 : 0 ≤ Real.log (2 * √(Real.exp 1 / Real.pi)) := by
+    apply Real.log_nonneg
+    have : (1 / 2 : ℝ) ≤ √(Real.exp 1 / Real.pi) := by
+      rw [Real.le_sqrt' (by norm_num), le_div_iff₀ Real.pi_pos]; nlinarith
+    linarith
+  -- ln S ≥ 1 − 1/S
+  have h4 : -3 ≤ Real.log (39161547791714576591486868936467662546793631982493184570659 /
+      148896465233329877699701845733331070000000000000000000000000) := by
+    have := Real.one_sub_inv_le_log_of_pos (x := (39161547791714576591486868936467662546793631982493184570659 /
+      148896465233329877699701845733331070000000000000000000000000 : ℝ)) (by norm_num)
+    refine le_trans ?_ this
+    norm_num
+  -- sin(π/1000) > 0.002
+  have h5 : -499 ≤ Real.log (Real.sin (Real.pi * (1 / 1000))) := by
+    have hx0 : 0 < Real.pi * (1 / 1000) := by positivity
+    have hs := Real.sin_gt_sub_cube hx0
+    have hcube : (Real.pi * (1 / 1000)) ^ 3 / 6 ≤ 1 / 1000 := by
+      have : (Real.pi * (1 / 1000)) ^ 3 ≤ (4 / 1000 : ℝ) ^ 3 :=
+        pow_le_pow_left₀ hx0.le (by linarith) 3
+      refine le_trans (div_le_div_of_nonneg_right this (by norm_num)) (by norm_num)
+    have hsin : (1 / 500 : ℝ) ≤ Real.sin (Real.pi * (1 / 1000)) := by linarith
+    have hpos : 0 < Real.sin (Real.pi * (1 / 1000)) := lt_of_lt_of_le (by norm_num) hsin
+    have := Real.one_sub_inv_le_log_of_pos hpos
+    have hinv : (Real.sin (Real.pi * (1 / 1000)))⁻¹ ≤ 500 := by
+      rw [inv_le_comm₀ hpos (by norm_num)]; linarith
+    linarith
+  nlinarith
+
+/-- full(ℝ), UNCONDITIONAL (was `gamma_lr_small_x_counterexample` before commit 9f2f5b7: model `0`, truth `> 0.95`):
+    at `a = 0.001`, `x = 2^−50 ≈ 8.88e-16` — inside the range of the removed `x ≈ 0` shortcut — the generated
+    `checked_gamma_lr` now satisfies the accuracy theorem of the series branch:
+      it returns `P(a,x)·exp(log Γ(a) − LG a)·q` with `1 − 1e-15·2^−50 ≤ q ≤ 1`,
+    where the true `P(a,x) ≥ 0.95`; the returned value is positive, and `checked_gamma_ur` returns `1 −` it. -/
+theorem gamma_lr_small_x_witness :
+    ∃ q : ℝ, F.gamma.checked_gamma_lr (0.001 : ℝ) (1 / 2 ^ 50) =
+        .ok (gammaLrR 0.001 (1 / 2 ^ 50)
+          * Real.exp (Real.log (Real.Gamma 0.001) - F.gamma.ln_gamma (0.001 : ℝ)) * q) ∧
+      F.gamma.checked_gamma_ur (0.001 : ℝ) (1 / 2 ^ 50) =
+        .ok (1 - gammaLrR 0.001 (1 / 2 ^ 50)
+          * Real.exp (Real.log (Real.Gamma 0.001) - F.gamma.ln_gamma (0.001 : ℝ)) * q) ∧
+      1 - 1e-15 * (1 / 2 ^ 50) ≤ q ∧ q ≤ 1 ∧ 0.95 ≤ gammaLrR 0.001 (1 / 2 ^ 50) ∧
+      0 < gammaLrR 0.001 (1 / 2 ^ 50)
+          * Real.exp (Real.log (Real.Gamma 0.001) - F.gamma.ln_gamma (0.001 : ℝ)) * q := by
   have ha : (0 : ℝ) < 0.001 := by norm_num
   have hx : (0 : ℝ) < 1 / 2 ^ 50 := by positivity
-  refine le_trans ?_ (gammaLrR_ge_first_term ha hx)
-  have hG : Real.Gamma (0.001 + 1) ≤ 1 := gamma_le_one_of_mem_Icc (by norm_num) (by norm_num)
-  have hGp : 0 < Real.Gamma (0.001 + 1) := Real.Gamma_pos_of_pos (by norm_num)
   have hlog : Real.log (1 / 2 ^ 50 : ℝ) = -(50 * Real.log 2) := by
     rw [one_div, Real.log_inv, Real.log_pow]; norm_num
-  have hpow : (0.96 : ℝ) ≤ (1 / 2 ^ 50 : ℝ) ^ (0.001 : ℝ) := by
-    rw [Real.rpow_def_of_pos hx, hlog]
-    have h2 := Real.log_two_lt_d9
-    have := Real.add_one_le_exp (-(50 * Real.log 2) * 0.001)
-    linarith
-  have hexp : (0.999 : ℝ) ≤ Real.exp (-(1 / 2 ^ 50)) := by
-    have := Real.add_one_le_exp (-(1 / 2 ^ 50 : ℝ))
+  have h2 := Real.log_two_lt_d9
+  -- the underflow guard, from the Lanczos bound
+  have hu : -(709.78271289338399 : ℝ)
+      ≤ 0.001 * Real.log (1 / 2 ^ 50) - 1 / 2 ^ 50 - F.gamma.ln_gamma (0.001 : ℝ) := by
+    have hL := ln_gamma_milli_le
     have h3 : (1 / 2 ^ 50 : ℝ) ≤ 0.001 := by norm_num
-    linarith
-  rw [le_div_iff₀ hGp]
-  have hprod : (0.96 : ℝ) * 0.999 ≤ (1 / 2 ^ 50 : ℝ) ^ (0.001 : ℝ) * Real.exp (-(1 / 2 ^ 50)) :=
-    mul_le_mul hpow hexp (by norm_num) (le_trans (by norm_num) hpow)
-  calc (0.95 : ℝ) * Real.Gamma (0.001 + 1) ≤ 0.95 * 1 := mul_le_mul_of_nonneg_left hG (by norm_num)
-    _ ≤ 0.96 * 0.999 := by norm_num
-    _ ≤ _ := hprod
+    rw [hlog]; linarith
+  have hxs : (1 / 2 ^ 50 : ℝ) ≤ 0.0000000000000011102230246251565 := by norm_num
+  -- the true value is above 0.95
+  have hP : (0.95 : ℝ) ≤ gammaLrR 0.001 (1 / 2 ^ 50) := by
+    refine le_trans ?_ (gammaLrR_ge_first_term ha hx)
+    have hG : Real.Gamma (0.001 + 1) ≤ 1 := gamma_le_one_of_mem_Icc (by norm_num) (by norm_num)
+    have hGp : 0 < Real.Gamma (0.001 + 1) := Real.Gamma_pos_of_pos (by norm_num)
+    have hpow : (0.96 : ℝ) ≤ (1 / 2 ^ 50 : ℝ) ^ (0.001 : ℝ) := by
+      rw [Real.rpow_def_of_pos hx, hlog]
+      have := Real.add_one_le_exp (-(50 * Real.log 2) * 0.001)
+      linarith
+    have hexp : (0.999 : ℝ) ≤ Real.exp (-(1 / 2 ^ 50)) := by
+      have := Real.add_one_le_exp (-(1 / 2 ^ 50 : ℝ))
+      have h3 : (1 / 2 ^ 50 : ℝ) ≤ 0.001 := by norm_num
+      linarith
+    rw [le_div_iff₀ hGp]
+    have hprod : (0.96 : ℝ) * 0.999 ≤ (1 / 2 ^ 50 : ℝ) ^ (0.001 : ℝ) * Real.exp (-(1 / 2 ^ 50)) :=
+      mul_le_mul hpow hexp (by norm_num) (le_trans (by norm_num) hpow)
+    calc (0.95 : ℝ) * Real.Gamma (0.001 + 1) ≤ 0.95 * 1 := mul_le_mul_of_nonneg_left hG (by norm_num)
+      _ ≤ 0.96 * 0.999 := by norm_num
+      _ ≤ _ := hprod
+  obtain ⟨q, hv, hlo, hhi⟩ := gamma_lr_small_x_accuracy 0.001 (1 / 2 ^ 50) (by norm_num) hx hxs hu
+  have hq0 : 0 < q := lt_of_lt_of_le (by norm_num) hlo
+  refine ⟨q, hv, ?_, hlo, hhi, hP, ?_⟩
+  · have hur := gamma_ur_small_x_value 0.001 (1 / 2 ^ 50) (by norm_num) hx hxs hu
+    have hlr := (gamma_lr_small_x_value 0.001 (1 / 2 ^ 50) (by norm_num) hx hxs hu).1
+    rw [hlr] at hv
+    injection hv with hv
+    rw [hur, hv]
+  · have := Real.exp_pos (Real.log (Real.Gamma 0.001) - F.gamma.ln_gamma (0.001 : ℝ))
+    have hP0 : 0 < gammaLrR 0.001 (1 / 2 ^ 50) := lt_of_lt_of_le (by norm_num) hP
+    positivity
 
 end Statrs.Props.C11
